@@ -165,7 +165,7 @@ pub(crate) fn replay_duration_hook<R: RngCore>(a: &Action, rng: &mut R) -> Optio
     if leaf_contracts_on() { Some(sample_duration_c(a, rng)) } else { None }
 }
 pub(crate) fn replay_limit_hook<R: RngCore>(a: &Action, rng: &mut R) -> Option<u64> {
-    if leaf_contracts_on() { Some(sample_limit_c(a, rng)) } else { None }
+    if crate::verif::limit_contract_on() { Some(sample_limit_c(a, rng)) } else { None }
 }
 pub(crate) fn replay_value_hook<R: RngCore>(c: &Counter, rng: &mut R) -> Option<u64> {
     if leaf_contracts_on() { Some(sample_value_c(c, rng)) } else { None }
@@ -772,6 +772,98 @@ fn k_below_other() {
     core::mem::forget(sarr);
 }
 
+
+// ------------------------------------------------------------------------------------------
+// Framework::new: fractions judged, every machine judged, the initial state satisfies Inv and the
+// limit of each machine's first state is sampled for THAT machine (C12, C01, C07(a))
+// ------------------------------------------------------------------------------------------
+static mut G_MV_CALLS: usize = 0;
+static mut G_MV_ERR_AT: usize = usize::MAX;
+fn machine_validate_ghost(_m: &Machine) -> Result<(), Error> {
+    unsafe {
+        let k = G_MV_CALLS;
+        G_MV_CALLS += 1;
+        if k == G_MV_ERR_AT {
+            return Err(Error::PaddingLimit);
+        }
+    }
+    Ok(())
+}
+pub(crate) fn replay_machine_validate_hook(m: &Machine) -> Option<Result<(), Error>> {
+    if mode() == crate::verif::MODE_FRAMEWORK_NEW { Some(machine_validate_ghost(m)) } else { None }
+}
+
+#[kani::proof]
+#[kani::unwind(4)]
+#[kani::stub(crate::machine::Machine::validate, machine_validate_ghost)]
+#[kani::stub(crate::action::Action::sample_limit, sample_limit_c)]
+fn k_framework_new() {
+    set_mode(crate::verif::MODE_FRAMEWORK_NEW);
+    const NT: Option<Vec<Trans>> = None;
+    // two one-state machines; the first state's action: none / cancel / padding / blocking / timer, with or without limit
+    let kinds: [u8; 2] = [kani::any(), kani::any()];
+    let lims: [bool; 2] = [kani::any(), kani::any()];
+    kani::assume(kinds[0] < 5 && kinds[1] < 5);
+    let mk_action = |k: u8, l: bool| -> Option<Action> {
+        let lim = opt_dist(l);
+        match k {
+            0 => None,
+            1 => Some(Action::Cancel { timer: Timer::All }),
+            2 => Some(Action::SendPadding { bypass: false, replace: false, timeout: dummy_dist(), limit: lim }),
+            3 => Some(Action::BlockOutgoing { bypass: false, replace: false, timeout: dummy_dist(), duration: dummy_dist(), limit: lim }),
+            _ => Some(Action::UpdateTimer { replace: false, duration: dummy_dist(), limit: lim }),
+        }
+    };
+    let mut s0 = [state_from_parts(mk_action(kinds[0], lims[0]), (None, None), [NT; EVENT_NUM])];
+    let mut s1 = [state_from_parts(mk_action(kinds[1], lims[1]), (None, None), [NT; EVENT_NUM])];
+    let ab: [u64; 2] = [kani::any(), kani::any()];
+    let machines = [
+        Machine { allowed_padding_packets: kani::any(), max_padding_frac: 0.0, allowed_blocked_microsec: ab[0], max_blocking_frac: 0.0, states: unsafe { vec_over(&mut s0) } },
+        Machine { allowed_padding_packets: kani::any(), max_padding_frac: 0.0, allowed_blocked_microsec: ab[1], max_blocking_frac: 0.0, states: unsafe { vec_over(&mut s1) } },
+    ];
+    let (pf, bf): (f64, f64) = (kani::any(), kani::any());
+    let t: u64 = kani::any();
+    let tape = Tape::any();
+    let err_at: usize = kani::any();
+    unsafe { G_MV_ERR_AT = err_at };
+    let r = Framework::new(&machines[..], pf, bf, VT(t), tape);
+    let calls = unsafe { G_MV_CALLS };
+    match &r {
+        Ok(f) => {
+            assert!(real_frac(pf) && real_frac(bf), "C12: a framework is only built with fractions that are real numbers in [0,1]");
+            assert!(calls == 2 && err_at >= 2, "C12: Framework::new applies the machine judgement to every machine and fails if one is rejected");
+            assert!(f.runtime.len() == 2 && f.actions.len() == 2 && f.actions[0].is_none() && f.actions[1].is_none(), "C01: one runtime and one empty action slot per machine (Inv)");
+            assert!(f.signal_pending.is_none() && !f.blocking_active && f.normal_sent_packets == 0 && f.padding_sent_packets == 0
+                && f.blocking_duration == VD(0) && f.current_time == VT(t) && f.framework_start == VT(t), "C01: a fresh framework has empty accounting (Inv)");
+            // limits: drawn in machine order, one word per machine whose first state has a limited action
+            let mut cursor = 0;
+            let mut i = 0;
+            while i < 2 {
+                let rt = &f.runtime[i];
+                assert!(rt.current_state == 0 && rt.counter_a == 0 && rt.counter_b == 0 && rt.padding_sent == 0 && rt.normal_sent == 0
+                    && rt.machine_start == VT(t) && rt.allowed_blocked_microsec == VD(ab[i]) && rt.blocking_duration == VD(0),
+                    "C01: every machine starts in its first state with empty accounting and its own blocking budget (Inv)");
+                let limited = kinds[i] >= 2 && lims[i];
+                let want = if kinds[i] == 0 { 0 } else if limited { tape.w64[cursor] } else { u64::MAX };
+                if limited {
+                    cursor += 1;
+                }
+                assert!(rt.state_limit == want, "C07(a): the limit of a machine's first state is sampled once, for that machine (maximum when its action has no limit)");
+                i += 1;
+            }
+            assert!(f.rng.c64 == cursor && f.rng.c32 == 0, "C07(a): one draw per limited first state");
+        }
+        Err(_) => {
+            assert!(!real_frac(pf) || !real_frac(bf) || err_at < 2, "C12: a framework built from accepted machines with fractions in [0,1] never fails");
+        }
+    }
+    kani::cover!(r.is_ok() && kinds[0] == 0 && kinds[1] >= 2 && lims[1], "first machine without action, second with a limited action");
+    kani::cover!(r.is_err() && real_frac(pf) && real_frac(bf), "rejected for a machine");
+    core::mem::forget(r);
+    core::mem::forget(machines);
+    core::mem::forget(s0);
+    core::mem::forget(s1);
+}
 
 // ------------------------------------------------------------------------------------------
 // L1 (one machine step, compositional over the CounterZero recursion) and L2 (whole calls)
